@@ -145,6 +145,9 @@ def gen_case(rng, opts=None):
     # trashbin on in some cases (same retention for the evolved and the fresh client); decided from
     # a separate stream so that the histories above stay what they were
     case["retention"] = random.Random(case["cseed"] ^ 0x7a5).choice([0, 0, 1]) if opts.get("trashbin") else 0
+    if opts.get("late_faults") and random.Random(case["cseed"] ^ 0x51ed).random() < opts["late_faults"]:
+        case["late_faults"] = True
+        case["p_fail"] = max(case["p_fail"], 0.3)
     if opts.get("pkey_move") and full["shape"] == "flat":
         return add_pkey_move(rng, case)
     return case
@@ -304,7 +307,17 @@ def run_case(case, wd):
         # the purely local entries keep failing during the first two loop iterations of the last phase
         # (the datamodel update, then the first one that sees new events): they are still queued when
         # the dataschema event (key move) is consumed
-        cworld["iter_hook"] = (lambda i: faults.__setitem__("local", i <= 1)) if last else (lambda i: faults.__setitem__("local", False))
+        late = bool(case.get("late_faults")) and last
+        if late:
+            # handlers still fail while the last life consumes the dataschema event and the first
+            # events that follow it (iterations 0-2), then stop failing: the rest drains
+            faults["on"] = True
+
+        def hook(i, last=last, late=late):
+            faults["local"] = (i <= 1) if last else False
+            if late and i > 2:
+                faults["on"] = False
+        cworld["iter_hook"] = hook
         first, c0 = {}, len(cworld["calls"])
         snaps.append(run_client_life(wd + "/cli", cdm, cworld, len(world["bus"]), (8 if last else 3) + (1 if pi > 0 else 0), pi,
                                      retention=case.get("retention", 0), purge_at_end=last, prev_limit=prev_limit, first=first))
